@@ -24,7 +24,7 @@ type sentinelSite struct {
 }
 
 var upperGlobs = []string{
-	"*EndKey)#0*",          // (*Region).EndKey(), GetEndKey()
+	"call(*).EndKey)#0*", "call(*).GetEndKey)#0*", "invoke(*EndKey)#0*", // (*Region).EndKey(), GetEndKey()
 	"fld(KeyLocation.EndKey,*", "fld(KeyRange.EndKey,*", "fld(Region.EndKey,*",
 	"*.EndKey,*",
 }
@@ -259,8 +259,13 @@ func emptinessGuarded(c *core.Ctx, fn *ssa.Function, cl *ssa.Call, operand ssa.V
 // sentinelRule reports every unguarded order comparison of an upper bound in fns, except the
 // frozen exceptions (function name → reason).
 func sentinelRule(c *core.Ctx, ruleID string, fns []*ssa.Function, exceptions map[string]string, min int) {
+	sentinelRuleX(c, ruleID, fns, exceptions, nil, min)
+}
+
+// sentinelRuleX: as sentinelRule, with additional upper-bound operands named by the caller.
+func sentinelRuleX(c *core.Ctx, ruleID string, fns []*ssa.Function, exceptions map[string]string, extraUpper func(fn *ssa.Function, v ssa.Value) bool, min int) {
 	a := rule(c, ruleID)
-	sites := sentinelSites(c, fns, nil)
+	sites := sentinelSites(c, fns, extraUpper)
 	seen := map[string]bool{}
 	n := 0
 	for _, s := range sites {
